@@ -255,6 +255,7 @@ inductive Edit where
   | lattice (i : Nat) (v : PyVal)
   | delLattice (i : Nat)
   | universe (i u : Nat)
+  | claim (u : Nat) (cells : List Nat)
   | notTruncated (i : Nat) (v : PyVal)
   | fillUniverse (i : Nat) (u : Option Nat)
   | fillTransform (i : Nat) (t : Option Nat)
@@ -357,6 +358,11 @@ def plan (p : Problem) : Edit → Except ErrKind (List Action)
   | .universe i u =>
     if i ≥ p.ncells then .error .indexError else if u ≥ p.nunis then .error .indexError
     else .ok [.setField (.cellUni i) (.ptr (some u))]
+  -- universe.py:Universe.claim (a list of cells: `for cell in cells: cell.universe = self`; the only thing a move
+  -- assigns is the pointer of each cell — in particular not `UniverseInput._not_truncated`)
+  | .claim u cells =>
+    if u ≥ p.nunis then .error .indexError else if cells.any (fun i => i ≥ p.ncells) then .error .indexError
+    else .ok (cells.map (fun i => .setField (.cellUni i) (.ptr (some u))))
   -- cell.py:Cell.not_truncated (setter)
   | .notTruncated i v =>
     if i ≥ p.ncells then .error .indexError else
